@@ -31,50 +31,78 @@ func family(name, bounds string) []*gen.Prog {
 	panic("unknown family " + name)
 }
 
-// genNative writes the native module: rt, packed program packages, main, and index.json; prints the content hash.
-func genNative(args []string) int {
-	fs := flag.NewFlagSet("gen-native", flag.ExitOnError)
-	bounds, _, outp := commonFlags(fs)
-	fam := fs.String("family", "taint", "program family")
-	chunk := fs.Int("chunk", 400, "programs per native package")
-	hashOnly := fs.Bool("hash", false, "print the content hash only")
-	fs.Parse(args)
-	progs := family(*fam, *bounds)
-	// group programs
-	type pk struct {
-		name   string
-		shared []string
-		idx    []int
-	}
-	var pks []*pk
-	cur := map[string]*pk{}
-	for i, p := range progs {
-		g := p.Group()
-		k := cur[g]
-		if k == nil || len(k.idx) >= *chunk {
-			_, sh := p.Render("X_")
-			k = &pk{name: fmt.Sprintf("g%d", len(pks)), shared: sh}
-			pks = append(pks, k)
-			cur[g] = k
-		}
-		k.idx = append(k.idx, i)
-	}
+// nativeFiles renders the native module of a family: file name -> content, and the number of entries.
+func nativeFiles(fam, bounds string, chunk int) (map[string]string, int) {
 	files := map[string]string{}
 	files["go.mod"] = "module zsubj\n\ngo 1.22\n"
 	files["rt/rt.go"] = gen.NativeRT
+	var pkgNames []string
+	n := 0
+	if fam == "defers" {
+		funcs := deferFuncs(bounds)
+		n = len(funcs)
+		for first := 0; first < len(funcs); first += 1500 {
+			last := first + 1500
+			if last > len(funcs) {
+				last = len(funcs)
+			}
+			name := fmt.Sprintf("d%d", len(pkgNames))
+			pkgNames = append(pkgNames, name)
+			files[name+"/funcs.go"] = gen.DeferPackage(name, funcs[first:last], first, true)
+		}
+	} else {
+		progs := family(fam, bounds)
+		n = len(progs)
+		type pk struct {
+			name   string
+			shared []string
+			idx    []int
+		}
+		var pks []*pk
+		cur := map[string]*pk{}
+		for i, p := range progs {
+			g := p.Group()
+			k := cur[g]
+			if k == nil || len(k.idx) >= chunk {
+				_, sh := p.Render("X_")
+				k = &pk{name: fmt.Sprintf("g%d", len(pks)), shared: sh}
+				pks = append(pks, k)
+				cur[g] = k
+			}
+			k.idx = append(k.idx, i)
+		}
+		for _, k := range pks {
+			pkgNames = append(pkgNames, k.name)
+			var sb strings.Builder
+			fmt.Fprintf(&sb, "package %s\n\nimport \"zsubj/rt\"\n\n", k.name)
+			sb.WriteString(gen.SharedText(k.shared))
+			var reg strings.Builder
+			reg.WriteString("var Progs = []rt.Entry{\n")
+			for _, i := range k.idx {
+				pre := gen.Prefix(i)
+				body, _ := progs[i].Render(pre)
+				fmt.Fprintf(&sb, "// %s\n%s\n", progs[i].Sig(), body)
+				fmt.Fprintf(&reg, "\t{Name: %q, Main: %smain, Reset: %sreset},\n", fmt.Sprint(i), pre, pre)
+			}
+			reg.WriteString("}\n")
+			sb.WriteString(reg.String())
+			files[k.name+"/progs.go"] = sb.String()
+		}
+	}
 	var mainSb strings.Builder
 	mainSb.WriteString("package main\n\nimport (\n\t\"encoding/json\"\n\t\"fmt\"\n\t\"os\"\n\t\"zsubj/rt\"\n")
-	for _, k := range pks {
-		fmt.Fprintf(&mainSb, "\t\"zsubj/%s\"\n", k.name)
+	for _, k := range pkgNames {
+		fmt.Fprintf(&mainSb, "\t\"zsubj/%s\"\n", k)
 	}
 	mainSb.WriteString(")\n\nfunc main() {\n\tvar all []rt.Entry\n")
-	for _, k := range pks {
-		fmt.Fprintf(&mainSb, "\tall = append(all, %s.Progs...)\n", k.name)
+	for _, k := range pkgNames {
+		fmt.Fprintf(&mainSb, "\tall = append(all, %s.Progs...)\n", k)
 	}
 	mainSb.WriteString(`	var i, n, h int
 	fmt.Sscanf(os.Args[1], "%d/%d", &i, &n)
 	fmt.Sscanf(os.Args[2], "%d", &h)
 	rt.Horizon = h
+	rt.WantLogs = len(os.Args) > 3 && os.Args[3] == "logs"
 	enc := json.NewEncoder(os.Stdout)
 	for j, e := range all {
 		if j%n != i {
@@ -85,22 +113,18 @@ func genNative(args []string) int {
 }
 `)
 	files["main.go"] = mainSb.String()
-	for _, k := range pks {
-		var sb strings.Builder
-		fmt.Fprintf(&sb, "package %s\n\nimport \"zsubj/rt\"\n\n", k.name)
-		sb.WriteString(gen.SharedText(k.shared))
-		var reg strings.Builder
-		reg.WriteString("var Progs = []rt.Entry{\n")
-		for _, i := range k.idx {
-			pre := gen.Prefix(i)
-			body, _ := progs[i].Render(pre)
-			fmt.Fprintf(&sb, "// %s\n%s\n", progs[i].Sig(), body)
-			fmt.Fprintf(&reg, "\t{Name: %q, Main: %smain, Reset: %sreset},\n", fmt.Sprint(i), pre, pre)
-		}
-		reg.WriteString("}\n")
-		sb.WriteString(reg.String())
-		files[k.name+"/progs.go"] = sb.String()
-	}
+	return files, n
+}
+
+// genNative writes the native module (rt, packed program packages, main) and prints the content hash.
+func genNative(args []string) int {
+	fs := flag.NewFlagSet("gen-native", flag.ExitOnError)
+	bounds, _, outp := commonFlags(fs)
+	fam := fs.String("family", "taint", "program family")
+	chunk := fs.Int("chunk", 400, "programs per native package")
+	hashOnly := fs.Bool("hash", false, "print the content hash only")
+	fs.Parse(args)
+	files, nprogs := nativeFiles(*fam, *bounds, *chunk)
 	h := sha256.New()
 	var names []string
 	for n := range files {
@@ -113,7 +137,7 @@ func genNative(args []string) int {
 	}
 	hash := hex.EncodeToString(h.Sum(nil))[:16]
 	if *hashOnly {
-		fmt.Println(hash, len(progs))
+		fmt.Println(hash, nprogs)
 		return 0
 	}
 	dir := *outp
@@ -125,7 +149,7 @@ func genNative(args []string) int {
 			return 2
 		}
 	}
-	fmt.Println(hash, len(progs))
+	fmt.Println(hash, nprogs)
 	return 0
 }
 
